@@ -356,6 +356,8 @@ func (ctx *Ctx) get(path []byte) any {
 	// See Ctx.replaceQB().
 	if ctx.chQB {
 		path = ctx.replaceQB(path)
+		// The index was looked up through get as well: forget its result.
+		ctx.bufX = nil
 	}
 
 	// Split path to separate words using dot as separator.
